@@ -141,9 +141,9 @@ func presetFor(c *Ctx, id string, i int) *HistOpts {
 
 func modelCheck(id string) checkFn {
 	return func(c *Ctx) {
-		c.rule = "generated block histories (all native transaction types, valid and single-defect invalid variants, signer/absentee/evidence patterns) executed on the real application; after every commit the full state dump is compared with a one-step reference model; a history is non-trivial and distinct when it has a distinct (genesis, block list) and at least one accepted state-changing transaction"
+		c.rule = "generated block histories (all native transaction types, valid and single-defect invalid variants, signer/absentee/evidence patterns) executed on the real application; after every commit the full state dump is compared with a one-step reference model; one evaluation = one executed block whose complete committed state was compared with the model; a block is non-trivial when at least one of its transactions was accepted, distinct by (history, height, app hash)"
 		c.assumptions = []string{"genesis validators satisfy the validator limits", "min validator stake >= 1 unit", "the anchor validator never leaves (Tendermint cannot run with an empty validator set)"}
-		n := c.N(32, 2000)
+		n := c.N(48, 2000)
 		c.Parallel(n, 0, func(i int) {
 			o := presetFor(c, id, i)
 			if !c.Quick() {
@@ -157,14 +157,16 @@ func modelCheck(id string) checkFn {
 				// read-only calls must not change state: a quiet twin that served no vm_call commits the same hashes
 				quietTwin(c, i, hr, "vm_call-changes-state")
 			}
-			c.Eval(1)
-			acc := 0
-			for _, v := range hr.Accepted {
-				acc += v
+			c.Eval(len(hr.Results))
+			for bi, res := range hr.Results {
+				for _, t := range res.Txs {
+					if t.Code == 0 {
+						c.Distinct(fmt.Sprintf("%s/%d/%x", o.Name, bi+1, res.Commit.Data))
+						break
+					}
+				}
 			}
-			if acc > 0 {
-				c.Distinct(fmt.Sprintf("%s/%x", o.Name, hr.AppHash))
-			}
+			c.Count("histories", 1)
 			if i < 2 {
 				c.Sample(map[string]interface{}{"history": o.Name, "validators": len(hr.G.G.Validators), "blocks": len(hr.Results), "accepted": hr.Accepted, "rejected": hr.Rejected, "params": hr.G.G.Params})
 			}
